@@ -60,7 +60,7 @@ theorem c18_shape (F : Fns α) (o z lo hi : α) (flag : Bool) (l : List (Option 
   · unfold detectOutliers; split <;> simp
   · unfold zscore; simp only; split <;> simp
   · unfold normalize; split <;> simp
-  · unfold transformToGaussian; split <;> [(split <;> [simp; (split <;> simp)]); simp]
+  · unfold transformToGaussian; split <;> [(split <;> simp); simp]
 
 theorem c18_shape_pipeline (ws : List (List (Option α) → List (Option α)))
     (hws : ∀ w ∈ ws, ∀ l, (w l).length = l.length) (raw : List (Raw α))
@@ -285,11 +285,53 @@ theorem c18_log_strict {F : Fns α} (hF : FnsOK F) {o : α} (ho : OffsetOK F o)
     rw [ha, hb] at this
     simpa using this
 
-/-- … and when all finite labels coincide it returns NaN everywhere (the case
-`[3, 3, nan]`: the pipeline then answers all zeros, infeasible = feasible) -/
+/-- … and when all finite labels coincide every finite label goes to the middle of the range and NaN stays NaN
+(the repaired `norm_diff = 0` branch; the pinned commit computed `0/0`, NaN everywhere: for `[3, 3, nan]` the
+pipeline then answered all zeros, infeasible = feasible) -/
 theorem c18_log_degenerate {F : Fns α} {o : α} (l : List (Option α))
-    (hall : ∀ x ∈ fins l, ∀ y ∈ fins l, x = y) : ∀ u ∈ logWarp F o l, u = none :=
-  log_all_none hall
+    (hall : ∀ x ∈ fins l, ∀ y ∈ fins l, x = y) :
+    logWarp F o l = l.map (fun u => u.map fun _ => half) :=
+  log_all_const hall
+
+/-- the log warper and the Gaussian transform on their own never turn a finite label into NaN and never invent a
+value for a missing one (no hypothesis on the labels: constant arrays, arrays with NaN, a single label) -/
+theorem c18_log_gauss_keep_finite (F : Fns α) (o : α) (l : List (Option α)) (i : Nat) :
+    (∀ x, l[i]? = some (some x) → ∃ a, (logWarp F o l)[i]? = some (some a)) ∧
+    (l[i]? = some none → (logWarp F o l)[i]? = some none) ∧
+    (∀ x, l[i]? = some (some x) → ∃ a, (transformToGaussian F l)[i]? = some (some a)) ∧
+    (l[i]? = some none → (transformToGaussian F l)[i]? = some none) := by
+  refine ⟨?_, ?_, ?_, ?_⟩
+  · intro x hx
+    unfold logWarp
+    split
+    · rw [List.getElem?_map, hx]
+      simp only [Option.map_some, logPt]
+      split <;> exact ⟨_, rfl⟩
+    · exact ⟨x, hx⟩
+  · intro hx
+    unfold logWarp
+    split
+    · rw [List.getElem?_map, hx]; rfl
+    · exact hx
+  · intro x hx
+    unfold transformToGaussian
+    split
+    · split
+      · rw [List.getElem?_map, hx]; exact ⟨_, rfl⟩
+      · rw [List.getElem?_map, hx]; exact ⟨_, rfl⟩
+    · exact ⟨x, hx⟩
+  · intro hx
+    unfold transformToGaussian
+    split
+    · split <;> (rw [List.getElem?_map, hx]; rfl)
+    · exact hx
+
+/-- the pinned commit's Gaussian transform (`np.min` / `np.max` propagate NaN; constant array is `0/0`): one missing
+label makes EVERY output NaN, and a constant array comes back all NaN -/
+theorem c18_gauss_legacy_counterexample :
+    transformToGaussianLegacy ratFns [some 1, some 2, none] = [none, none, none] ∧
+    transformToGaussianLegacy ratFns [some (3 : ℚ), some 3] = [none, none] := by
+  constructor <;> decide +kernel
 
 /-- half-rank alone, documented ranks: strictly increasing on finite labels, NaN kept -/
 theorem c18_halfrank_strict {F : Fns α} (hF : FnsOK F) (l : List (Option α)) (i j : Nat) (x y : α)
